@@ -33,6 +33,9 @@ META = {
             "interposed to skip back-off sleeps), hook IORA_VERIF_EVENT(\"http.client.attempt\") in executeRequest.",
 }
 
+# ---- additions of the translator / tie session (appended to the manifest texts)
+META["text"] += " Every third case is delivered paced (the client sees exactly the scripted segmentation); oracle on the implementation's trace: a connection whose response was followed by surplus bytes or said Connection: close never carries another request."
+
 IDEM = {"GET", "HEAD", "PUT", "DELETE", "OPTIONS", "TRACE"}
 
 
